@@ -6,6 +6,8 @@ copies, removals, re-parenting, refused operations and drillhole groups."""
 from __future__ import annotations
 
 import gc
+import os
+import shutil
 import random
 
 from .. import hist, snap
@@ -34,7 +36,55 @@ def gen_cases(tier, seed):
     cases = []
     for i in range(n):
         cases.append({"kind": "history", "profile": ["mixed", "copy2", "churn", "refuse", "drill"][i % 5], "n_ops": [10, 16, 24][i % 3] if tier == "quick" else [15, 30, 50][i % 3], "gc": ["default", "every", "seeded"][(i // 5) % 3], "refs": ["strong", "refetch", "drop"][(i // 15) % 3]})
+    if tier == "thorough":  # the repository's own tests as an extra workload: every file they close goes through the validator
+        cases.append({"kind": "repo-suite", "profile": "repo-suite"})
     return cases
+
+
+CASE_TIMEOUT = 900
+
+
+def run_repo_suite(case, rec):
+    import json
+    import subprocess
+    import sys
+    import tempfile
+
+    from ..core import REPO, ROOT
+
+    d = tempfile.mkdtemp(prefix="gvm_suite_")
+    out = os.path.join(d, "findings.jsonl")
+    env = dict(os.environ, GVM_PLUGIN_OUT=out, PYTHONPATH=os.pathsep.join([REPO, ROOT, os.path.join(ROOT, ".deps")]))
+    try:
+        p = subprocess.run([sys.executable, "-m", "pytest", "-q", "-p", "no:cacheprovider", "-p", "gvm.pytest_plugin", f"--basetemp={d}/bt", "--timeout=900", "tests"],
+                           cwd=REPO, env=env, capture_output=True, text=True, timeout=850)
+        rec.see("repo-suite-runs")
+        stats = {}
+        n = 0
+        if os.path.exists(out):
+            for ln in open(out):
+                f = json.loads(ln)
+                if "stats" in f:
+                    stats = f["stats"]
+                    continue
+                n += 1
+                test = f["test"].split("::")[0].split("/")[-1]
+                if f["rule"].startswith("X."):
+                    raise RuntimeError("validator error inside the suite lane: " + f["detail"])
+                attr = "removed-through-parent" if f.get("through_parent") else test
+                clause = "C02." + f["rule"] if f["rule"].startswith("V") else "C02.suite-" + f["rule"]
+                rec.fail(clause, op="repo-suite", cls=f["kind"], attr=attr, detail=f"{f['test']} closed {f['file']}: {f['detail']}")
+        for k, v in stats.items():
+            rec.obs["suite:" + k] += v
+        rec.evals["C02.suite-files"] += stats.get("validated", 0)
+        rec.obs["files-validated"] += stats.get("validated", 0)
+        if stats.get("validated", 0) < 150:
+            raise RuntimeError(f"suite lane validated only {stats.get('validated', 0)} files; pytest said: {p.stdout[-300:]}")
+        rec.nontrivial = True
+        rec.shape = ["repo-suite"]
+        rec.sample = {"profile": "repo-suite", "pytest": p.stdout.strip().splitlines()[-1][:120], "stats": stats}
+    finally:
+        shutil.rmtree(d, ignore_errors=True)
 
 
 PROFILES = {
@@ -97,6 +147,8 @@ def run_case(case, rec):
     classes = None
     if case["profile"] == "drill":
         return run_drill(case, rec, rng)
+    if case["profile"] == "repo-suite":
+        return run_repo_suite(case, rec)
     eng = hist.Engine(rec, rng, PROP, weights=PROFILES[case["profile"]], monitors=[C02Monitor()], gc_plan=case["gc"], ref_policy=case["refs"], n_ops=case["n_ops"], second_ws=case["profile"] == "copy2", classes=classes)
     eng.run()
     rec.shape = [case["profile"], [(o["op"], o.get("cls", "")) for o in eng.log]]
